@@ -509,10 +509,12 @@ def patched(sched: Scheduler, backend_factory: Callable[[str], Any], shared_rloc
         """One primitive on the lock file, as the kernel answered it (sched.locklog: the lock-layer trace, separate from the
         storage log; actors only -- setup code holds no lock while actors run)."""
         a = sched.me()
-        if a is None:
+        if a is None and not getattr(sched, "log_setup_locks", False):
             return
         h = _lock_handle()
-        sched.locklog.append({"actor": a.name, "pid": os.getpid(), "handle": id(h) if h is not None else None,
+        # sched.log_setup_locks (process-family runs, procsched.py): what a handle does with the lock file BEFORE the actors
+        # start -- a parent process that has used its lock and then forks its workers -- belongs to the lock-layer trace
+        sched.locklog.append({"actor": a.name if a is not None else "setup", "pid": os.getpid(), "handle": id(h) if h is not None else None,
                               "prim": prim, "fd": fd if isinstance(fd, int) else None, "ok": ok, "known": known})
 
     class _FcntlProxy:
